@@ -184,13 +184,16 @@ Definition address (r : creg) (vars : list Z) : outcome Z := addr_index (g_index
 
 Definition m_address (r : creg) : M Z := fun s => (address r (c_vars s), s).
 
+(* cacheable != CachingMode::NoCache (modes other than the three of the enum count as NoCache) *)
+Definition cacheable (r : creg) : bool := (g_mode r =? WT) || (g_mode r =? WA).
+
 (* the device read of read_and_cache followed by cx.cache_data unless NoCache *)
 Definition m_read_and_cache (on : bool) (n : Z) (r : creg) (a : Z) : M (list Z) :=
   fun s =>
     let '(o, d) := cdev_read (c_dev s) a (g_len r) in
     match o with
     | Ok bs => (Ok bs, set_cache (set_dev s d)
-                          (if g_mode r =? NC then c_cache s else c_put on (n, a, g_len r) bs (c_cache s)))
+                          (if cacheable r then c_put on (n, a, g_len r) bs (c_cache s) else c_cache s))
     | Err e => (Err e, set_dev s d)
     | Panic => (Panic, set_dev s d)
     end.
@@ -405,7 +408,7 @@ Definition run (on : bool) (v : ver) (y : system) (base : Z) (image vars rej : l
 
 Definition outputs (x : list Z * cst) : list Z := fst x.
 Definition final_mem (x : list Z * cst) : list Z := d_mem (c_dev (snd x)).
-Definition access_log (x : list Z * cst) : list access := rev (d_log (c_dev (snd x))).   (* oldest first *)
+Definition access_log (x : list Z * cst) : list access := d_log (c_dev (snd x)).   (* newest first *)
 
 Definition run_show (on : bool) (v : ver) (y : system) (base : Z) (image vars rej : list Z) (h : list cop)
   : list Z := let x := run on v y base image vars rej h in outputs x ++ show_dev (c_dev (snd x)).
